@@ -1002,13 +1002,27 @@ bool parse(const std::string& format, const std::string& input,
   }
   cs -= offset;
 
-  const auto tp = ptz.lookup(cs).pre;
+  const auto cl = ptz.lookup(cs);
+  const auto tp = cl.pre;
   // Checks for overflow/underflow and returns an error as necessary.
   if (tp == time_point<seconds>::max()) {
     const auto al = ptz.lookup(time_point<seconds>::max());
     if (cs > al.cs) {
       if (err != nullptr) *err = "Out-of-range field";
       return false;
+    }
+    if (cl.kind == time_zone::civil_lookup::SKIPPED) {
+      // A skipped civil time is read with the offset in force before the
+      // transition, which places it after the transition (and after the
+      // civil times shown there), so the test above does not see whether
+      // that reading was clamped. Redo the addition from the last second
+      // before the transition.
+      const auto before = cl.trans - seconds(1);
+      if (cs - ptz.lookup(before).cs >
+          (time_point<seconds>::max() - before).count()) {
+        if (err != nullptr) *err = "Out-of-range field";
+        return false;
+      }
     }
   }
   if (tp == time_point<seconds>::min()) {
